@@ -77,7 +77,7 @@ def observe(c, lazy=False):
     inner, mid, outer, step = F(c["inner"]) * DELTA, F(c["mid"]) * DELTA, F(c["outer"]) * DELTA, F(c["step"]) * DELTA
     ev = {"case": c, "lazy": lazy, "raised": False, "n": n, "inner": c["inner"], "mid": c["mid"], "outer": c["outer"], "annular": [], "annular_unit": True,
           "integrate_radial": [], "integrate_unit": True, "flexible": [], "flexible_unit": True, "flexible_applicable": False, "segmented_sum": [],
-          "segmented_unit": True, "annular_reused": [], "segmented_reused": [], "split_low": [], "split_high": [], "pattern_low": [], "pattern_high": [], "flex_bins": [], "flex_prefix": [], "flex_offset": c["inner"], "flex_width": c["step"]}
+          "segmented_unit": True, "annular_reused": [], "segmented_reused": [], "segmented_reassigned": [], "split_low": [], "split_high": [], "pattern_low": [], "pattern_high": [], "flex_bins": [], "flex_prefix": [], "flex_offset": c["inner"], "flex_width": c["step"]}
     try:
         w = onehot_waves(n, lazy)
         import zlib
@@ -103,6 +103,12 @@ def observe(c, lazy=False):
         worn = abtem.SegmentedDetector(inner=inner, outer=outer, nbins_radial=nr, nbins_azimuthal=na, rotation=0.3)
         worn.detect(other)
         ev["segmented_reused"], _ = decode(worn.detect(w))
+        # ... and its limits are public attributes: a detector built for (inner, mid), used, then given outer through the setter is
+        # the detector with limits (inner, outer)
+        worn = abtem.SegmentedDetector(inner=inner, outer=mid, nbins_radial=nr, nbins_azimuthal=na, rotation=0.3)
+        worn.detect(w)
+        worn.outer = outer
+        ev["segmented_reassigned"], _ = decode(worn.detect(w))
         try:
             flex = via(abtem.FlexibleAnnularDetector(step_size=step, inner=inner), 2).detect(w)
         except RuntimeError as ex:
@@ -178,7 +184,7 @@ def self_test(ctx: Ctx):
     ring = lambda lo, hi: [a * n + b for a, b in product(range(n), range(n)) if lo * lo <= fr(a) ** 2 + fr(b) ** 2 < hi * hi]
     good = {"raised": False, "n": 4, "inner": q(3, 4), "mid": q(5, 4), "outer": q(9, 4), "annular": ring(0.75, 2.25), "annular_unit": True,
             "integrate_radial": ring(0.75, 2.25), "integrate_unit": True, "flexible": ring(0.75, 2.75), "flexible_unit": True, "flexible_applicable": True,
-            "segmented_sum": ring(0.75, 2.25), "segmented_unit": True, "annular_reused": ring(0.75, 2.25), "segmented_reused": ring(0.75, 2.25), "split_low": ring(0.75, 1.25), "split_high": ring(1.25, 2.25), "pattern_low": ring(0.75, 1.25), "pattern_high": ring(1.25, 2.25),
+            "segmented_sum": ring(0.75, 2.25), "segmented_unit": True, "annular_reused": ring(0.75, 2.25), "segmented_reused": ring(0.75, 2.25), "segmented_reassigned": ring(0.75, 2.25), "split_low": ring(0.75, 1.25), "split_high": ring(1.25, 2.25), "pattern_low": ring(0.75, 1.25), "pattern_high": ring(1.25, 2.25),
             "flex_bins": [ring(0.75, 1.75), ring(1.75, 2.75)], "flex_prefix": [ring(0.75, 1.75), ring(0.75, 2.75)], "flex_offset": q(3, 4), "flex_width": q(1)}
     b1 = dict(good, flex_bins=[ring(0.75, 2.0), ring(2.0, 3.25)])          # bins wider than the stated sampling
     b2 = dict(good, annular=ring(0.75, 2.25)[:-1])
